@@ -11,7 +11,8 @@ theorem p1_resync (pre : List Nat) (hpre : Octets pre) (ds : List ReadoutDesc)
     (hds : ∀ d ∈ ds, d.WF ∧ d.encode.length ≤ p1Guard)
     (hch : chunks.flatten = pre ++ ds.flatMap ReadoutDesc.encode) :
     ∃ r outs junk, readAll Reader.init chunks = .ok (r, outs) ∧
-      outs.flatten = junk ++ ds.tail.map expectedReadout := by
-  sorry
+      outs.flatten = junk ++ ds.tail.map expectedReadout :=
+  have _ := hpre   -- not needed: the reader tests `< 128` on arbitrary numbers
+  resync pre ds chunks hds hch
 
 end Amshan.C16
